@@ -268,7 +268,7 @@ def _t(ck, what):
 def _replay_records(ck: Check, recs, label):
     CH = 250
     chunks = [(recs[i:i + CH], i) for i in range(0, len(recs), CH)]
-    if len(recs) > 1500:
+    if len(recs) > 800:
         # import accelforge once, before forking: concurrent imports in the helpers are very slow
         judge(recs[0])
         with ProcessPoolExecutor(4) as ex:
@@ -324,16 +324,15 @@ def run(ck: Check):
                           "the bounds of the A configs (1 Einsum: <= 3 sub-tables x 0..3 rows, <= %d result rows; "
                           "2 Einsums: <= 2 x 0..2, <= %d result rows%s)"
                           % ((3, 2, "; 3 Einsums: <= 2 x 0..1, 1 result row") if thorough else (2, 1, "")))
-    if thorough:
-        negs = []
-        for cfg in ("Compress_neg_key.cfg", "Compress_neg_walk.cfg"):
-            res = ck.tlc("Compress", cfg, timeout=600)
-            if res.ok:
-                raise Machinery("role-A negative control %s: a start-index bookkeeping error must violate the "
-                                "invariants, TLC found nothing" % cfg)
-            negs.append("%s: %s" % (cfg, res.violated))
-        ck.extra["role_A"] += ("; refuted for dict key taken after the increment and for a forward walk (%s)"
-                               % "; ".join(negs))
+    negs = []
+    for cfg in ("Compress_neg_key.cfg", "Compress_neg_walk.cfg"):
+        res = ck.tlc("Compress", cfg, timeout=600)
+        if res.ok:
+            raise Machinery("role-A negative control %s: a start-index bookkeeping error must violate the "
+                            "invariants, TLC found nothing" % cfg)
+        negs.append("%s: %s" % (cfg, res.violated))
+    ck.extra["role_A"] += ("; refuted for dict key taken after the increment and for a forward walk (%s)"
+                           % "; ".join(negs))
     _t(ck, "role A done")
     # ---- binding B
     if thorough:
@@ -344,7 +343,7 @@ def run(ck: Check):
     for cfg, seed in plan:
         kw = {"workers": 8}
         if seed is not None:
-            kw = {"seed": seed, "workers": 1, "simulate": "num=1", "depth": (3000 if thorough else 800)}
+            kw = {"seed": seed, "workers": 1, "simulate": "num=1", "depth": (3000 if thorough else 1000)}
         res = ck.tlc("MC_Compress", cfg, timeout=3000, coverage=False, **kw)
         if not res.ok:
             raise Machinery("generator %s failed: %s\n%s" % (cfg, res.violated, res.tail))
